@@ -534,6 +534,17 @@ func runScenario(sc *Scenario, r *zsimrt.Rand, replay []zsimrt.Decision) *Outcom
 		}
 	}
 
+	// one shared byte slice per distinct JSON document (registered before anything runs)
+	docPool = map[string][]byte{}
+	for t := range sc.Tasks {
+		for i := range sc.Tasks[t] {
+			if op := &sc.Tasks[t][i]; op.Kind == KUnmarshal {
+				if _, ok := docPool[op.Query]; !ok {
+					docPool[op.Query] = []byte(op.Query)
+				}
+			}
+		}
+	}
 	ensureDrivers(sc.Cold)
 	if sc.Cold {
 		sim()
@@ -544,6 +555,14 @@ func runScenario(sc *Scenario, r *zsimrt.Rand, replay []zsimrt.Decision) *Outcom
 		passA()
 		sim()
 		passB()
+	}
+
+	// the JSON documents handed to Unmarshal are still what they were (arguments are only read)
+	for doc, b := range docPool {
+		if string(b) != doc {
+			w.note(soloSlot, &Violation{Oracle: "O2", Task: -1, Op: -1, Kind: KUnmarshal,
+				What: "the byte slice handed to json.Unmarshal was modified", Want: doc, Got: string(b)})
+		}
 	}
 
 	// ---- oracles over the recorded results ----
